@@ -14,7 +14,6 @@ import (
 
 	"github.com/youchainhq/go-youchain/common"
 	"github.com/youchainhq/go-youchain/consensus/ucon"
-	"github.com/youchainhq/go-youchain/core"
 	"github.com/youchainhq/go-youchain/core/state"
 	"github.com/youchainhq/go-youchain/core/types"
 	"github.com/youchainhq/go-youchain/crypto"
@@ -90,7 +89,7 @@ type world struct {
 
 	// node under test
 	live    *sut
-	leaked  bool // some node died in a panic and could not be stopped
+	leaked  bool           // some node died in a panic and could not be stopped
 	queued  []*types.Block // blocks the live node holds in its future queue (harness view)
 	offers  []*offer
 	budget  int // restarts left
@@ -511,5 +510,3 @@ func initWorld(r *kit.Run, w *chainworld.World, setup chainworld.Setup) *world {
 	cx.byHash[g.Hash()] = gn
 	return cx
 }
-
-var _ = core.ErrKnownBlock
